@@ -2,6 +2,7 @@
 import json
 import os
 import random
+import re
 import subprocess
 import time
 
@@ -120,6 +121,136 @@ def mc_fork(wd, t, rnd):
         scns += printed(out, "SCN")
     log("MC_ChainFork: %d instances, %d distinct states, %d behaviours" % (len(FORK[t]), dist, len(scns)))
     return dist, gen_n, sample(scns, FORK_SAMPLE[t], rnd)
+
+
+REPO = os.environ.get("VERIF_REPO", "/repo")
+
+
+def repo_tree_key():
+    """identifies the exact working tree of the repository (HEAD + uncommitted changes + untracked sources)"""
+    import hashlib
+    h = hashlib.sha1()
+    for cmd in (["git", "-C", REPO, "rev-parse", "HEAD"], ["git", "-C", REPO, "diff", "HEAD"],
+                ["git", "-C", REPO, "status", "--porcelain"]):
+        h.update(subprocess.run(cmd, stdout=subprocess.PIPE).stdout)
+    out = subprocess.run(["git", "-C", REPO, "ls-files", "--others", "--exclude-standard"], stdout=subprocess.PIPE, text=True).stdout
+    for f in out.splitlines():
+        try:
+            h.update(open(os.path.join(REPO, f), "rb").read())
+        except OSError:
+            pass
+    return h.hexdigest()[:16]
+
+
+def record_repo_tests(wd):
+    """runs the repository's own saito-core unit tests with the cfg(saito_verif) recorder on; every add_block call
+    they make (TestManager, the consensus thread's block queue) is written with the chain state before and after.
+    The recording is cached per working-tree state (the three chain checks share it)."""
+    cache = os.path.join(WORK, "_rtcache")
+    os.makedirs(cache, exist_ok=True)
+    key = repo_tree_key()
+    tr = os.path.join(cache, "trace_%s.ndjson" % key)
+    if os.path.exists(tr) and os.path.getsize(tr) > 0:
+        return tr, "cached"
+    for f in os.listdir(cache):
+        if f.startswith("trace_"):
+            os.remove(os.path.join(cache, f))
+    env = dict(os.environ)
+    env.update(CARGO_NET_OFFLINE="true", CARGO_TARGET_DIR=os.path.join(cache, "target"),
+               RUSTFLAGS="--cfg saito_verif --cfg tokio_unstable --check-cfg cfg(saito_verif) --check-cfg cfg(tokio_unstable)",
+               VERIF_REPO_TRACE=tr + ".part", RUST_BACKTRACE="0")
+    if os.path.exists(tr + ".part"):
+        os.remove(tr + ".part")
+    t0 = time.time()
+    p = subprocess.run(["cargo", "test", "-p", "saito-core", "--lib", "--offline", "--", "--test-threads", "8"], cwd=REPO, env=env,
+                       stdout=subprocess.PIPE, stderr=subprocess.STDOUT, text=True, timeout=2400)
+    m = re.search(r"test result: \w+\. (\d+) passed; (\d+) failed", p.stdout)
+    if not m:
+        raise ToolError("the repository's tests did not run with the recorder on:\n" + "\n".join(p.stdout.splitlines()[-25:]))
+    if not os.path.exists(tr + ".part"):
+        raise ToolError("the repository's tests recorded nothing (hook missing?)")
+    os.rename(tr + ".part", tr)
+    return tr, "%s passed, %s failed, %.0f s" % (m.group(1), m.group(2), time.time() - t0)
+
+
+def repo_tests_leg(pid, t, wd, rscn, known, violations, known_hits):
+    """the repository's own tests as a source of traces: their add_block calls are validated against ChainTrace"""
+    import repo_trace
+    rwd = os.path.join(wd, "repo")
+    os.makedirs(rwd, exist_ok=True)
+    if rscn is not None:
+        # replay of a stored scenario: validate its events again (the test run itself cannot be replayed)
+        p = os.path.join(rwd, "replay.ndjson")
+        with open(p, "w") as f:
+            f.write(json.dumps({"ev": "Reset", "scn": 0, "maxh": rscn["maxh"], "g": rscn["g"], "loaded": rscn["loaded"]}) + "\n")
+            for ev in rscn["repo_trace_events"]:
+                f.write(json.dumps(ev) + "\n")
+        files = {(rscn["g"], rscn["maxh"]): p}
+        stats = dict(events=len(rscn["repo_trace_events"]), followed_events=len(rscn["repo_trace_events"]), scenarios=1)
+        how = "replay"
+    else:
+        tr, how = record_repo_tests(wd)
+        files, stats = repo_trace.convert(tr, rwd)
+        if stats["events"] == 0:
+            raise ToolError("the repository tests recorded no add_block call")
+    bad = []
+    consumed = 0
+    by_file = {}
+    for (gval, maxh), p in sorted(files.items()):
+        cfg = os.path.join(rwd, "ChainTrace_repo_g%d_h%d.cfg" % (gval, maxh))
+        write_cfg(cfg, "TraceSpec", dict(MaxH=maxh, G=gval), invariants=["ReportBad"], postcondition="TraceDone")
+        by_file[p] = (gval, maxh)
+    def one(p):
+        gval, maxh = by_file[p]
+        cfg = os.path.join(rwd, "ChainTrace_repo_g%d_h%d.cfg" % (gval, maxh))
+        return validate_traces("ChainTrace.tla", cfg, [p], wd, par=1)
+    from concurrent.futures import ThreadPoolExecutor
+    with ThreadPoolExecutor(max_workers=6) as ex:
+        for (b2, c2), p in zip(ex.map(one, list(by_file.keys())), list(by_file.keys())):
+            for x in b2:
+                x["file"] = p
+            bad += b2
+            consumed += c2
+    mine = [b for b in bad if b["prop"] == pid]
+    log("repository tests (%s): %d of %d add_block calls followed in %d scenarios, %d divergences for %s (%d all properties)"
+        % (how, stats["followed_events"], stats["events"], stats["scenarios"], len(mine), pid, len(bad)))
+    groups = {}
+    for b in mine:
+        groups.setdefault((b["file"], b["scn"]), []).append(b)
+    for (p, k), bs in sorted(groups.items()):
+        unmatched = []
+        for b in bs:
+            sig = dict(kind="trace", why=b["why"], res=b["res"], cls="repo-tests")
+            kf = match_known(pid, sig, known)
+            if kf:
+                known_hits.append(kf)
+            else:
+                unmatched.append(dict(sig, step=b["i"], b=b["b"]))
+        if unmatched:
+            evs = [json.loads(ln) for ln in open(p) if json.loads(ln).get("scn") == k and json.loads(ln).get("ev") == "Add"]
+            gval, maxh = by_file[p]
+            loaded = evs[0]["st"]["loaded"] if evs else False
+            path = write_replay(pid, dict(property=pid, scenario=dict(repo_trace_events=evs, g=gval, maxh=maxh, loaded=loaded),
+                                          divergences=unmatched, seed=seed(), tier=t))
+            violations.append((unmatched[0], path))
+    if t == "thorough" and rscn is None and files:
+        # the binding is live: a recorded tip changed by hand must be rejected
+        p0 = sorted(files.values())[0]
+        lines = open(p0).read().splitlines()
+        for i, ln in enumerate(lines):
+            e = json.loads(ln)
+            if e.get("ev") == "Add" and e["st"]["tip"] == e["b"] and e["b"] > 1:
+                e["st"]["tip"] = e["b"] - 1
+                lines[i] = json.dumps(e)
+                break
+        pc = os.path.join(rwd, "corrupted.ndjson")
+        open(pc, "w").write("\n".join(lines) + "\n")
+        gval, maxh = by_file[p0]
+        cfg = os.path.join(rwd, "ChainTrace_repo_g%d_h%d.cfg" % (gval, maxh))
+        b3, _ = validate_traces("ChainTrace.tla", cfg, [pc], wd, par=1)
+        if not b3:
+            raise ToolError("a corrupted recording of the repository's tests was accepted: the trace binding is not live")
+    return stats, consumed
 
 
 def long_chain_leg(pid, t, wd, lscns, known, violations, known_hits):
@@ -322,13 +453,17 @@ def run(pid, t, replay=None):
     rnd = random.Random(seed())
     build_harness()
     lscns = None
+    rscn = None
     if replay:
         with open(replay) as f:
             rp = json.load(f)
         scns = [rp["scenario"]]
         dist = gen_n = 0
         cov = {}
-        if "steps" in rp["scenario"]:
+        if "repo_trace_events" in rp["scenario"]:
+            rscn = rp["scenario"]
+            scns = [dict(blocks=[dict(id=1, parent=0, gt=False, w=2, ok=True)], order=[1])]
+        elif "steps" in rp["scenario"]:
             # a scenario of the long-chain leg (ledger harness)
             lscns = scns
             scns = [dict(blocks=[dict(id=1, parent=0, gt=False, w=2, ok=True)], order=[1])]
@@ -416,8 +551,11 @@ def run(pid, t, replay=None):
     violations = []
     known_hits = []
     long_n = long_ev = 0
-    if pid == "C05":
+    if pid == "C05" and rscn is None:
         long_n, long_ev = long_chain_leg(pid, t, wd, lscns, known, violations, known_hits)
+    rstats, rconsumed = ({}, 0)
+    if rscn is not None or (not replay):
+        rstats, rconsumed = repo_tests_leg(pid, t, wd, rscn, known, violations, known_hits)
     for k, lab in stalled:
         if pid == "C04":
             sig = dict(kind="stall", why="add_block did not return", scenario_class="")
@@ -453,6 +591,8 @@ def run(pid, t, replay=None):
         mc_instance=MC[t], gen_instances=GEN[t],
         action_counts={k: cov.get(k, 0) for k in ("Deliver", "MCUnwind", "MCWind", "MCUnNew", "MCRewind")},
         long_chain_scenarios=long_n, long_chain_events=long_ev,
+        repo_test_calls_followed=rstats.get("followed_events", 0), repo_test_calls_recorded=rstats.get("events", 0),
+        repo_test_scenarios=rstats.get("scenarios", 0), repo_test_rejected_calls=rstats.get("rejected_calls", 0),
         divergences_this_property=len(mine), known_findings_matched=len(set(k["id"] for k in known_hits)),
         checker_cmd="tlc MC_Chain.tla (MC, GEN); harness/bin/chain; tlc ChainTrace.tla (TV)",
         trusted_base=["TLC 1.8.0", "harness projection (project.rs)", "builder nodes using Block::create"],
